@@ -7,7 +7,9 @@
 EXTENDS TraceBase
 M == INSTANCE Metadata WITH MaxNameLen <- 255, Propagate <- TRUE, AcceptEmpty <- TRUE, MaxLevel <- 1000
 \* attribute metadata is keyed by attribute unique id: the decoded geometry must still have the attributes under those ids
-CheckA(r) == r.e = "Meta" => (r.eok => (r.dok /\ r.out = r.tree /\ r.outatts = r.atts /\ r.out_uids = r.in_uids))
+\* "Conc": the kept streams decoded by four threads at once -- every decode returns the tree the decode on its own returned
+CheckA(r) == /\ r.e = "Meta" => (r.eok => (r.dok /\ r.out = r.tree /\ r.outatts = r.atts /\ r.out_uids = r.in_uids))
+             /\ r.e = "Conc" => r.mismatches = 0
 CheckB(r) == (r.e = "Meta" /\ r.via = "direct") =>
       /\ (r.hasmodel => Drift(r.eok = r.model_eok, "encoder verdict vs MC row"))
       /\ (r.hasbytes /\ r.eok) => Drift(r.bytes = r.model_bytes, "metadata bytes vs MC row")
